@@ -21,6 +21,60 @@ chk("C06", "exploration",
     "Trusts math/big. Shift counts stay below ~2^9 (the implementation itself needs gigabytes beyond that); and/or boxes too wide to enumerate are checked for soundness only.",
     "runtime monitoring: reference-model oracle (math/big) over seeded executions of the real package", "DESIGN.md §5 C06")
 
+
+chk("C03", "exploration",
+    "Every std decoder and hasher is run, in the ASan+UBSan build and a -O2 build (allocator intercepted with --wrap) of the C generated from the working tree by the real `wuffs gen`, on test/data files, reference-encoder output, byte-level mutations, other formats and random bytes, under varied source splits, destination capacities, closed early/late, work-buffer sizes and memory pre-fills. Monitors: sanitizer reports, allocator calls during a call, 'internal error' statuses, short read on a closed fully supplied source, short write with nothing written into an empty 1 MiB destination, status class, per-job CPU budget. Held on the executions observed.",
+    "Bounded work is a per-job CPU-time budget (not the step-counting checked build planned in DESIGN §3.1, which was not built). UBSan's nonnull-attribute check is off (memset(NULL,0,0) is not one of the behaviours the property lists). Red-zone sanitizers miss non-adjacent overflows.",
+    "runtime monitoring: compiler sanitizers (ASan+UBSan) + allocator interposition + status/suspension monitors in a scripted C driver over hostile inputs", "DESIGN.md §5 C03, §3.4")
+chk("C05", "exploration",
+    "For each small input (valid, truncated, corrupted) of every std decoder, one sweep runs EVERY single split point of the source (and of the destination capacity for io_transformers) and compares each chunked run with the one-shot run of the same sanitized binary on output bytes, final status, getters and (non-error) consumed count; larger inputs get seeded random multi-splits down to 1 byte. Held on what was observed; one known finding (xz non-final filters).",
+    "Single-split sweeps are exhaustive per input; inputs and multi-split plans are sampled. Generated-program (liveness) leg planned in DESIGN is not yet wired here.",
+    "runtime monitoring: differential oracle (chunked vs one-shot execution of the same compiled code) under ASan+UBSan", "DESIGN.md §5 C05")
+chk("C07", "exploration",
+    "Payload classes are pushed through independent reference encoders (Go flate/zlib/gzip/lzw/png/gif, /usr/bin bzip2 and xz) and decoded by the generated Wuffs decoders in the ASan+UBSan and -O2 builds; bytes/pixels, OK status and consumed count must match; Wuffs CRC-32/CRC-64/Adler-32/SHA-256 over random update partitions must equal Go's. Stream features (stored/fixed/dynamic blocks, 15-bit codes, distance 32768) are confirmed by scanning the encoded stream.",
+    "Trusts the reference encoders to emit valid streams. PNG/GIF expectations are the pixels handed to the encoder (non-premultiplied sources).",
+    "runtime monitoring: reference-model oracle (independent encoders + original payload) over executions of the generated C", "DESIGN.md §5 C07")
+chk("C08", "exploration",
+    "Seeded call histories (<=30 steps: garbage-filled memory, good/bad initialize, null/partial/closed/garbage buffers, coroutine and non-coroutine calls, re-initialise) are executed on every std struct; each status is checked against an explicit protocol state machine that constrains only what the property states, and the driver checks ri<=wi<=len, monotonic ri/wi, source bytes and already-written destination bytes after every call.",
+    "Model state after a non-coroutine error is resynchronised from the object's magic word; call-sequence expectations only in exactly known states. std structs only (generated-object leg not wired).",
+    "runtime monitoring: history checker (protocol state machine) + buffer-contract assertions over recorded call traces", "DESIGN.md §5 C08")
+chk("C09", "exploration",
+    "Each input is decoded under nine variants (zeroed+ALREADY_ZEROED, 0xFF memory, PRNG memory + LEAVE_INTERNAL_BUFFERS_UNINITIALIZED, re-initialised after another decode, differently pre-filled work/destination memory, SIMD vs AVOID_CPU_ARCH builds, -O1 sanitized vs -O2) and all must agree on output, statuses, consumed counts and getters; mutated JPEGs are compared within one build only (documented exception).",
+    "Which choose'n CPU variant ran is not read back; the CPU here has SSE4.2/AVX2/BMI2/PCLMUL. MSan/valgrind are deliberately not used (stricter than the property).",
+    "runtime monitoring: differential oracle across memory/flag/CPU-path variants of the same decode", "DESIGN.md §5 C09")
+chk("C12", "exploration",
+    "wuffsfmt: std sources and seeded re-spacings/slices are rendered by the real token/parse/render packages; output must re-tokenize to the same tokens (numerics by value) and comments, parse, and be a fixed point. dumbindent: real C files, slices and a grammar of lexically closed snippets x options; output must equal the input up to per-line blanks and be a fixed point; hangs/OOM are verdicts via RLIMIT_CPU/RLIMIT_AS in an isolated child.",
+    "Only sources cmd/wuffsfmt accepts (tokenize+parse) are judged. Inputs to dumbindent never start with a blank line (the package drops leading blank lines by design and pins that in its own test).",
+    "runtime monitoring: round-trip/idempotence oracles over seeded executions of the real formatter packages, resource limits as hang detector", "DESIGN.md §5 C12")
+chk("C14", "exploration",
+    "Seeded Read/Seek/SeekRange/Close histories on RAC files from the real writer are executed at Concurrency 0,1,2,4,16 under GOMAXPROCS 1..16 with seeded schedule perturbation at hook sites in the concurrent reader, and compared call by call with an in-memory model; deadlock verdict = the Go runtime's own detector in a CGO_ENABLED=0 child; goroutine leak check after Close; a separate -race child reports data races.",
+    "After a non-EOF error the history ends (rac.Reader documents sticky errors). Files whose plain sequential decode differs from the payload are skipped (C13's concern). Porcupine not used: the Reader is single-client.",
+    "runtime monitoring: reference-model history checker + Go race detector + runtime deadlock detector + seeded scheduling hooks", "DESIGN.md §5 C14")
+chk("C15", "exploration",
+    "Hostile RAC files (writer-made files with index fields mutated one by one and the checksum repaired, self/mutually referential nodes, out-of-file pointers, truncations, claimed sizes to 2^48, random bytes) are walked, sought and decoded through a counting ReadSeeker capped at 1000+64*(S/16)^2 calls; every returned chunk must have a well-formed in-file CPrimary and non-empty ascending contiguous DRanges ending at DecompressedSize; no panic; two successful decodes must agree.",
+    "The work bound is the logical call cap (>=100x above any writer-made file) plus a per-case CPU budget. One known finding (exponential shared-subtree DAG).",
+    "runtime monitoring: invariant monitors on the chunk stream + logical work counter + recover()", "DESIGN.md §5 C15")
+chk("C16", "exploration",
+    "Valid DEFLATE/zlib streams from Go's encoders (all levels, flush patterns, dictionaries) and a hand assembler are cut at EVERY limit from the minimum to len+2 (streams <= 2 KiB; targeted limits for larger); a successful Cut must stay within limit and buffer, decode completely with Go's decoder to exactly payload[:decodedLen], equal what the writer received, and keep everything when the limit is large; arbitrary bytes must not panic and nil-error results must stay in bounds.",
+    "Trusts compress/flate and compress/zlib as decoders. Limit sweeps are exhaustive per small stream.",
+    "runtime monitoring: reference-model oracle (Go decoders + original payload) over seeded and per-stream-exhaustive executions", "DESIGN.md §5 C16")
+chk("C17", "exploration",
+    "Round trips over all lengths 0..1099, 64 KiB boundary lengths, carry-chain constructions and random payloads: Decode(Encode(x)) must return x with no remainder; the xz tool must decode the encoding to x; an independent XZ container walker checks framing, padding, CRCs, index and footer; mutated encodings and random bytes must not panic and output must stay within 4096*len+4096.",
+    "The Wuffs std/lzma and std/xz decoder leg is not wired yet (xz tool and own walker are the independent decoders). xz leg runs on a subset in quick tier.",
+    "runtime monitoring: reference-model oracles (xz tool, own container walker, payload) + resource limits", "DESIGN.md §5 C17")
+chk("C18", "exploration",
+    "Images over sizes (1..17, 65535 on one axis), the three colour types, quantisation tables and coefficient classes (extremes, DC swings, zero runs 15/16/17/62, stuffing-heavy) are encoded; an independent baseline-JPEG reader (tables read from the file) must decode every block to round(coef/q), headers must match, exactly ceil*ceil units are accepted, image/jpeg accepts the file, no panic/allocation; FDCT output valid and |IDCT(FDCT(p))-p| checked. One known finding (round trip off by 2 for rare blocks).",
+    "Exact q/2 ties accepted either way (undocumented). Images above 20000 MCUs are checked for headers and first units only.",
+    "runtime monitoring: independent decoder oracle + image/jpeg + AllocsPerRun over seeded executions", "DESIGN.md §5 C18")
+chk("C19", "exploration",
+    "Images whose encoded byte counts end within a few bytes of the first/later IDAT capacities, strides with garbage padding, all colour/depth types, 1xN/Nx1, sequences of Encodes on one Encoder and failing writers: image/png must decode to the same pixels; an independent walker checks signature, chunk order/length/CRC, zlib header, stored-block LEN/NLEN/BFINAL, Adler-32 and raw length.",
+    "IDAT limit taken as the 65528 named in the property. Trusts image/png as the standard decoder.",
+    "runtime monitoring: reference decoder + independent structural walker over boundary-targeted executions", "DESIGN.md §5 C19")
+chk("C20", "exploration",
+    "The real wuffs-c and `wuffs gen`, built from the working tree, are run on every std package under repeated fresh processes, GOMAXPROCS 1/16, GOGC=1, altered environment, other working directory, and on tmpfs copies of std created in forward/reverse/shuffled order; outputs are compared by SHA-256; the regenerated release file must equal the committed snapshot, gen.go output must equal data.go, the argv a wuffs-c shim receives must list files sorted, and the verif-tagged tool with its switch off must be byte-identical.",
+    "Tools are single-threaded: scheduling variation is GOMAXPROCS/GC only. Generated (non-std) packages not yet included.",
+    "runtime monitoring: repeated-run output comparison of the real tools under varied environments", "DESIGN.md §5 C20")
+
 not_applicable = []
 import os
 allp = [json.loads(l)["id"] for l in open("/verif/properties.jsonl")]
